@@ -4,7 +4,7 @@ import os
 import shutil
 import tempfile
 from harness import drive_select, gen_conn, tlc, layer_coding
-from harness.runner import pmap, CACHE
+from harness.runner import first_per_clause, pmap, CACHE
 from harness.layer_conn import family
 
 
@@ -123,7 +123,7 @@ def run(ctx):
                 if not s['err']:
                     out['encoders_selected'][s['desc']['encoder'].split('+')[0].strip()[:30]] += 1
         if v[2]:
-            out['fails'].append({'tid': r['tid'], 'fails': v[2][:5], 's': r.get('s') or {'a': r['a'], 'b': r['b'], 'kind': r['kind']}, 'enc': None,
+            out['fails'].append({'tid': r['tid'], 'fails': first_per_clause(v[2]), 's': r.get('s') or {'a': r['a'], 'b': r['b'], 'kind': r['kind']}, 'enc': None,
                                  'limit': r.get('limit'), 'selected': sorted({s['desc']['encoder'] for s in r.get('sel', [])})})
     t0 = traces[0]
     out['samples'] = [{'settings': t0['s'], 'selections': [{k: s[k] for k in ('hist', 'limit_ms', 'sched', 'err')} | {'encoder': s['desc']['encoder'], 'ndv': s['desc']['ndv']} for s in t0['sel']]},
